@@ -39,6 +39,15 @@ fn check_polygon(acc: &mut Acc, idx: usize, shell: &[IP], holes: &[Vec<IP>], tag
     let cs: Vec<IP> = pg.exterior().0.iter().map(|c| (c.x as i64, c.y as i64)).collect();
     let chs: Vec<Vec<IP>> = pg.interiors().iter().map(|r| r.0.iter().map(|c| (c.x as i64, c.y as i64)).collect()).collect();
     let want = polygon_ok(&cs, &chs);
+    // an EMPTY interior ring: geo treats it as absent, the wording of C14 ("every ring has at least four coordinates") would reject it. Only polygons
+    // that are invalid anyway are compared (then every reported error must still name real rings by their positions, the empty one included)
+    if chs.iter().any(|h| h.is_empty()) {
+        let nonempty: Vec<Vec<IP>> = chs.iter().filter(|h| !h.is_empty()).cloned().collect();
+        if polygon_ok(&cs, &nonempty) {
+            acc.count("dropped_out_of_domain (valid except for an empty interior ring)", 1);
+            return;
+        }
+    }
     // connectedness is not part of C14's wording: only compare where both notions agree
     if want && !holes.is_empty() {
         let p = Poly { shell: trace(&cs), holes: chs.iter().map(|h| trace(h)).collect() };
@@ -209,6 +218,16 @@ pub fn run(mut run: Run) -> i32 {
         let b: Vec<IP> = nth_sequence(nb, 3, bi).iter().map(|&i| all[i]).collect();
         check_polygon(acc, idx, &big, &[a.clone(), b], "2holes");
     });
+    // the same two-hole family with an EMPTY interior ring inserted before, between or after the two holes
+    run.stage("two-holes-with-empty-ring", lefts.len() * n2 / if quick { 9 } else { 3 }, |idx, acc| {
+        let q = if quick { 9 } else { 3 };
+        let a = &lefts[idx % lefts.len()];
+        let bi = (idx / lefts.len()) * q + 1;
+        let b: Vec<IP> = nth_sequence(nb, 3, bi % n2).iter().map(|&i| all[i]).collect();
+        let mut hs = vec![a.clone(), b];
+        hs.insert(idx % 3, vec![]);
+        check_polygon(acc, idx, &big, &hs, "2holes+empty");
+    });
     // multipolygons: every ordered pair of simple G3 polygons
     let rs = rings(3, if quick { 5 } else { 8 });
     let nr = rs.len();
@@ -359,6 +378,42 @@ pub fn run(mut run: Run) -> i32 {
             acc.evals += 1;
             if !r.is_valid() || !Geometry::Rect(r).is_valid() || !r.validation_errors().is_empty() {
                 acc.viol("Rect with finite corners reported invalid".into(), idx, || json!({"rect": format!("{:?}", r)}));
+            }
+        });
+    }
+    // thin triangles: corners within a few ulps (f64) / a few units at 2^13 (f32) of collinear; collinear exactly when the exact determinant vanishes
+    {
+        use geo::algorithm::validation::InvalidTriangle;
+        run.stage("other-types-thin-triangles", 17 * 17 * 2 + 6561, |idx, acc| {
+            if idx < 17 * 17 * 2 {
+                let (i, j, big) = ((idx / 2 / 17) as i64 - 8, (idx / 2 % 17) as i64 - 8, idx % 2 == 1);
+                let step = 2f64.powi(-30);
+                let sc = if big { 1048576.0 } else { 1.0 };
+                let (a, b, c3) = ((0.0, 0.0), ((1.0 + i as f64 * step) * sc, 1.0 * sc), (1.0 * sc, (1.0 + j as f64 * step) * sc));
+                let exact = crate::bigf::orient(a, b, c3);
+                let distinct = b != c3;
+                let want = distinct && exact != 0;
+                let t = Triangle(Coord { x: a.0, y: a.1 }, Coord { x: b.0, y: b.1 }, Coord { x: c3.0, y: c3.1 });
+                acc.evals += 1;
+                acc.class(format!("thin triangle f64 valid{}", want));
+                let (got, e) = (t.is_valid(), t.validation_errors());
+                if got != want || (want && !e.is_empty()) || e.iter().any(|x| matches!(x, InvalidTriangle::CollinearCoords) && (exact != 0 || !distinct)) {
+                    acc.viol("thin Triangle<f64>: validity / CollinearCoords disagrees with the exact determinant".into(), idx, || json!({"triangle": format!("{:?}", t), "exact_orientation": exact, "is_valid": got, "errors": format!("{:?}", e)}));
+                }
+            } else {
+                let k = (idx - 17 * 17 * 2) as i64;
+                let (i, j, kk, l) = (k % 9 - 4, (k / 9) % 9 - 4, (k / 81) % 9 - 4, k / 729 - 4);
+                let m: i64 = 8192;
+                let (b, c3) = ((m + i, m + j), (2 * m + kk, 2 * m + l));
+                let det = b.0 * c3.1 - b.1 * c3.0;
+                let want = det != 0;
+                let t = Triangle(Coord { x: 0.0f32, y: 0.0 }, Coord { x: b.0 as f32, y: b.1 as f32 }, Coord { x: c3.0 as f32, y: c3.1 as f32 });
+                acc.evals += 1;
+                acc.class(format!("thin triangle f32 valid{}", want));
+                let (got, e) = (t.is_valid(), t.validation_errors());
+                if got != want || (want && !e.is_empty()) {
+                    acc.viol("thin Triangle<f32> with integer corners: validity disagrees with the exact determinant".into(), idx, || json!({"triangle": format!("{:?}", t), "exact_determinant": det, "is_valid": got, "errors": format!("{:?}", e)}));
+                }
             }
         });
     }
